@@ -205,6 +205,7 @@ def c04(work, tier, seed, replay):
     design, scripts, nq = ft.gen_policy_scripts(work, "addr", tier, seed, quick_n=700)
     scripts += ft.gen_moved_client_scripts(tier, seed)
     scripts += ft.gen_cookie_carrying_scripts(tier, seed)
+    scripts += ft.gen_reopened_out_scripts(tier, seed)
     d2 = design_check("MC_Proto", "MC_Proto.cfg", work, workers=8, timeout=600)
     # C04 is decided by the host/address guards evaluated on address-varying requests
     out = tunnel_family("C04", work, tier, seed, scripts, design, jobs=16,
